@@ -144,3 +144,14 @@ def taproot_tweak(internal_d, merkle_root):
     t = int.from_bytes(tagged("TapTweak", b32(px) + (merkle_root or b"")), "big") % N
     q = add(lift_x(px), mul(t))
     return b32(q[0]), q[1] & 1, (d + t) % N
+
+
+NUMS_H = bytes.fromhex("50929b74c1a04954b78b4b6035e97a5e078a5a0f28ec96d547bfee9ace803ac0")   # BIP341 "nothing up my sleeve" point
+
+
+def taproot_tweak_pub(internal_x, merkle_root):
+    """output key for an x-only internal key whose secret is unknown (script path only) -> (x-only bytes, parity)"""
+    px = int.from_bytes(internal_x, "big")
+    t = int.from_bytes(tagged("TapTweak", b32(px) + (merkle_root or b"")), "big") % N
+    q = add(lift_x(px), mul(t))
+    return b32(q[0]), q[1] & 1
